@@ -83,6 +83,18 @@ def main():
         die("derived_signature_key_size no longer divides by 8")
     key_len = per_policy("min_max_asymmetric_keylength", "ASYMMETRIC_KEY_LENGTH")
     sig_alg = per_policy("asymmetric_signature_algorithm", "ASYMMETRIC_SIGNATURE_ALGORITHM")
+    enc_alg = per_policy("asymmetric_encryption_algorithm", "ASYMMETRIC_ENCRYPTION_ALGORITHM")
+    enc_pad = group_arms(fn_body(sp_nc, "asymmetric_encryption_padding"), r"RsaPadding::(\w+)")
+    if sorted(enc_pad) != sorted(POLICIES):
+        die("asymmetric_encryption_padding: arms cover %s" % sorted(enc_pad))
+    # decrypt_user_identity_token_password: algorithm constant -> padding
+    try:
+        ui = re.sub(r"(?m)^\s*//[^\n]*$", "", open(os.path.join(repo, "lib/src/crypto/user_identity.rs")).read())
+    except OSError as e:
+        die(str(e))
+    tok_pad = re.findall(r"super::algorithms::(\w+)\s*=>\s*RsaPadding::(\w+)", fn_body(ui, "decrypt_user_identity_token_password"))
+    if len(tok_pad) != 3:
+        die("decrypt_user_identity_token_password: expected 3 algorithm arms, found %d" % len(tok_pad))
 
     enc = group_arms(fn_body(sp_nc, "make_secure_channel_keys"), r"\((\d+),\s*(\d+)\)")
     dig = group_arms(fn_body(sp_nc, "prf"), r"openssl_hash::MessageDigest::(\w+)\(\)")
@@ -128,6 +140,21 @@ def main():
     L.append("/-- `PrivateKey` method per arm of `asymmetric_sign` / `PublicKey` method per arm of `asymmetric_verify_signature` -/")
     L.append("def signFn : List (String × String) := [" + ", ".join('("%s", "%s")' % (p, sign[p][0]) for p in POLICIES) + "]")
     L.append("def verifyFn : List (String × String) := [" + ", ".join('("%s", "%s")' % (p, verify[p][0]) for p in POLICIES) + "]")
+    L.append("")
+    L.append("/-- `ASYMMETRIC_ENCRYPTION_ALGORITHM` URI selected by `asymmetric_encryption_algorithm` -/")
+    eu = []
+    for p in POLICIES:
+        if enc_alg[p] not in algs:
+            die("unknown algorithm constant %s" % enc_alg[p])
+        eu.append('("%s", "%s")' % (p, algs[enc_alg[p]]))
+    L.append("def encUri : List (String × String) := [" + ", ".join(eu) + "]")
+    L.append("/-- `RsaPadding` arms of `asymmetric_encryption_padding` -/")
+    L.append("def encPadding : List (String × String) := [" + ", ".join('("%s", "%s")' % (p, enc_pad[p][0]) for p in POLICIES) + "]")
+    L.append("/-- algorithm URI → `RsaPadding` arms of `decrypt_user_identity_token_password` -/")
+    for a, _ in tok_pad:
+        if a not in algs:
+            die("unknown algorithm constant %s" % a)
+    L.append("def tokenUriPadding : List (String × String) := [" + ", ".join('("%s", "%s")' % (algs[a], pd) for a, pd in tok_pad) + "]")
     L.append("")
     L.append("def lookup {α : Type} (t : List (String × α)) (k : String) : Option α := (t.find? (·.1 == k)).map (·.2)")
     L.append("")
